@@ -1,5 +1,6 @@
 import Utv.GenEq.Support
 import Utv.Gen.Field
+import Utv.Gen.Options
 import Utv.Model.C04Data
 /-!
 C04 — T1 obligations: the two field predicates the data-class part of the no-escape model reads
@@ -42,5 +43,39 @@ theorem C04_gen_get_on_error (W : Obj.World V) (f : FieldDecl V) (o : Opts) (ni 
     cases onError with
     | none => obj_simp [Field.get_on_error, encField, encOpts, getattr, lookupAttr, FieldDecl.policy]
     | some p => cases p <;> obj_simp [Field.get_on_error, encField, encOpts, getattr, lookupAttr, FieldDecl.policy, encPolicy]
+
+/-! ### `Options.make_context`: which options the new context runs with (`makeContextOpts`, `runningOpts`) -/
+
+abbrev O := OVal Opts
+
+/-- an `Options` object: what `make_context` / `RuntimeContext.__init__` read of it, and the model's `Opts` behind it -/
+def encO (o : Opts) : O := .obj "Options" [("override", .bool o.override), ("max_depth", .none), ("model", .val o)]
+
+/-- the enclosing context, if any -/
+def encCtxOpt : Option Opts → O
+  | none => .none
+  | some c => .obj "RuntimeContext" [("options", encO c), ("depth", .int 0), ("routes", .seq .list [])]
+
+theorem C04_gen_make_context (W : Obj.World Opts) (self : Opts) (ctx : Option Opts) (cls fe : O) :
+    (Options.Options_make_context W (encO self) cls fe (encCtxOpt ctx) >>= fun c => getattr c "options")
+      = .ok (encO (makeContextOpts self ctx)) := by
+  gen_obligation "C04_gen_make_context: the regenerated code (Utv.Gen) is no longer equal to the hand model here" by
+    cases ctx with
+    | none =>
+      cases hc : cls.isNone <;>
+        obj_simp [Options.Options_make_context, Options.RuntimeContext_new, Options.RuntimeContext_init, encO, encCtxOpt,
+          getattr, setattr, lookupAttr, setAttrL, OVal.isUnprovided, hc, concat, add, intOf?, makeContextOpts]
+    | some c =>
+      cases hc : cls.isNone <;> cases hs : self.override <;> cases hco : c.override <;>
+        obj_simp [Options.Options_make_context, Options.RuntimeContext_new, Options.RuntimeContext_init, encO, encCtxOpt,
+          getattr, setattr, lookupAttr, setAttrL, OVal.isUnprovided, hc, hs, hco, concat, add, intOf?, makeContextOpts,
+          toList, iter]
+
+/-- `init_dataclass`: `options.make_context(...)` when options are given for the call, else the declared ones -/
+theorem C04_gen_running_opts (W : Obj.World Opts) (declared : Opts) (given ctx : Option Opts) (cls fe : O) :
+    (Options.Options_make_context W (encO (given.getD declared)) cls fe (encCtxOpt ctx) >>= fun c => getattr c "options")
+      = .ok (encO (runningOpts declared given ctx)) := by
+  gen_obligation "C04_gen_running_opts: the regenerated code (Utv.Gen) is no longer equal to the hand model here" by
+    exact C04_gen_make_context W (given.getD declared) ctx cls fe
 
 end Utv.GenEq.C04
